@@ -84,7 +84,7 @@ def Spec.arcOut (s : Spec α) : ArcOut α → Spec α × Calls α
        (.begin start () : Call (Pt α) Unit) :: quadCalls quads)
 
 def Spec.arcTo (s : Spec α) (to : Pt α) : SvgArcOut α → Spec α × Calls α
-  | .straight => s.draw to (.line to ()) .arc
+  | .straight => s.draw to (.line to ()) .other
   | .arc o => s.arcOut o
 
 section
@@ -148,12 +148,6 @@ def Cmd.isArc : Cmd α ρ → Bool
 def Cmd.isSmooth : Cmd α ρ → Bool
   | .smoothCubicTo .. | .smoothRelCubicTo .. | .smoothQuadTo .. | .smoothRelQuadTo .. => true
   | _ => false
-
-/-- no smooth command directly after an arc command (`afterArc`: the command before the list
-was an arc) -/
-def noSmoothAfterArc : Bool → List (Cmd α ρ) → Bool
-  | _, [] => true
-  | afterArc, c :: r => !(afterArc && c.isSmooth) && noSmoothAfterArc c.isArc r
 
 end
 
